@@ -31,33 +31,112 @@ func (g *Gen) syncCase(what string, v *View, subnet uint64, m *altair.SyncCommit
 	})
 }
 
+// HeadAt: a head block and a (current) slot at or after it; the slots in between are empty.
+type HeadAt struct {
+	Head *Node
+	Cur  common.Slot
+}
+
+// seatsOf: the (validator, subnet) seats of a sync committee, in committee order, without repetitions
+// ([2] = first committee position of the seat).
+func seatsOf(members []common.ValidatorIndex, subSize uint64) (out [][3]uint64) {
+	seen := map[[2]uint64]bool{}
+	for pos, vi := range members {
+		k := [2]uint64{uint64(vi), uint64(pos) / subSize}
+		if !seen[k] {
+			seen[k] = true
+			out = append(out, [3]uint64{k[0], k[1], uint64(pos)})
+		}
+	}
+	return
+}
+
+func hasSeat(seats [][3]uint64, k [3]uint64) bool {
+	for _, x := range seats {
+		if x[0] == k[0] && x[1] == k[1] {
+			return true
+		}
+	}
+	return false
+}
+
 func (g *Gen) genSyncMessages(sc *Scenario, heads []*Node) {
+	var at []HeadAt
+	for _, head := range heads {
+		at = append(at, HeadAt{head, head.Slot}, HeadAt{head, head.Slot + 1})
+	}
+	g.genSyncMessagesAt(sc, at)
+}
+
+// genSyncMessagesAt: `at` lists (head block, current slot) pairs; pairs come in twos per head as far as the sampling
+// ordinal `hi` is concerned. When the head block lies in an earlier sync-committee period than the current slot and the
+// committee really differs, every seat is exercised: seats that are new in the period of the message (ACCEPT expected)
+// and seats held only in the committee of the head block's own post-state (REJECT expected).
+func (g *Gen) genSyncMessagesAt(sc *Scenario, at []HeadAt) {
 	w := sc.W
 	subSize := uint64(w.Spec.SYNC_COMMITTEE_SIZE) / common.SYNC_COMMITTEE_SUBNET_COUNT
-	for hi, head := range heads {
-		for _, cur := range []common.Slot{head.Slot, head.Slot + 1} {
+	for ai, a := range at {
+		hi, head, cur := ai/2, a.Head, a.Cur
+		{
 			if w.Spec.SlotToEpoch(cur) < w.Spec.ALTAIR_FORK_EPOCH {
 				continue
 			}
 			v := NewView(w, head, 0)
 			v.NowMs = v.SlotStartMs(cur) + 4000
-			_, epc, err := w.Advance(head, cur)
+			st, _, err := w.Advance(head, cur)
 			must(err)
-			members := epc.CurrentSyncCommittee.Indices
-			// honest: every position of the committee
-			seenPos := map[string]bool{}
-			for pos, vi := range members {
-				subnet := uint64(pos) / subSize
-				key := fmt.Sprintf("%d/%d", vi, subnet)
-				if seenPos[key] {
-					continue
+			members := w.SyncCommitteeOf(st) // of the state AT THE MESSAGE SLOT
+			seats := seatsOf(members, subSize)
+			// the committee of the head block's own post-state, when it is another one
+			var oldSeats, newOnly, oldOnly [][3]uint64
+			if old := w.SyncCommitteeOf(head.State); old != nil {
+				oldSeats = seatsOf(old, subSize)
+			}
+			period := func(s common.Slot) uint64 {
+				return uint64(w.Spec.SlotToEpoch(s)) / uint64(w.Spec.EPOCHS_PER_SYNC_COMMITTEE_PERIOD)
+			}
+			crossed := period(head.Slot) != period(cur)
+			if crossed && oldSeats != nil {
+				for _, k := range seats {
+					if !hasSeat(oldSeats, k) {
+						newOnly = append(newOnly, k)
+					}
 				}
-				seenPos[key] = true
-				if (pos+hi+g.Salt)%2 == 0 || pos < 4 {
+				for _, k := range oldSeats {
+					if !hasSeat(seats, k) {
+						oldOnly = append(oldOnly, k)
+					}
+				}
+			}
+			rotated := len(newOnly) > 0 || len(oldOnly) > 0
+			if crossed {
+				g.E.Extra["x_sync_views_head_in_earlier_period"] = extraInt(g.E.Extra["x_sync_views_head_in_earlier_period"]) + 1
+			}
+			if rotated {
+				g.E.Extra["x_sync_views_head_in_earlier_period_committee_rotated"] = extraInt(g.E.Extra["x_sync_views_head_in_earlier_period_committee_rotated"]) + 1
+			}
+			// honest: every position of the committee
+			for _, k := range seats {
+				vi, subnet, pos := common.ValidatorIndex(k[0]), k[1], int(k[2])
+				switch {
+				case rotated && !hasSeat(oldSeats, k):
+					g.syncCase("honest[seat-new-in-this-period]", v, subnet, w.MakeSyncMessage(cur, head.Root, vi, w.KeyOf(vi), common.DOMAIN_SYNC_COMMITTEE))
+				case rotated:
+					g.syncCase("honest[seat-kept-across-period]", v, subnet, w.MakeSyncMessage(cur, head.Root, vi, w.KeyOf(vi), common.DOMAIN_SYNC_COMMITTEE))
+				case (pos+hi+g.Salt)%2 == 0 || pos < 4:
 					g.syncCase("honest", v, subnet, w.MakeSyncMessage(cur, head.Root, vi, w.KeyOf(vi), common.DOMAIN_SYNC_COMMITTEE))
 				}
 			}
+			// seats held only in the committee of the head block's own period: correctly signed, but no seat any more
+			for _, k := range oldOnly {
+				vi, subnet := common.ValidatorIndex(k[0]), k[1]
+				g.syncCase("seat-only-in-previous-period", v, subnet, w.MakeSyncMessage(cur, head.Root, vi, w.KeyOf(vi), common.DOMAIN_SYNC_COMMITTEE))
+			}
 			pos := (int(cur)*5 + g.Salt) % len(members)
+			if rotated && len(newOnly) > 0 {
+				// the member the corruptions are applied to holds a seat that is new in this period
+				pos = int(newOnly[(int(cur)+g.Salt)%len(newOnly)][2])
+			}
 			vi := members[pos]
 			subnet := uint64(pos) / subSize
 			k := w.KeyOf(vi)
@@ -203,6 +282,7 @@ func (w *World) MakeContribution(o ContribOpts) *altair.SignedContributionAndPro
 }
 
 func (g *Gen) contribCase(what string, v *View, sc *altair.SignedContributionAndProof) string {
+	what += g.contribTag
 	f := NewFacts(v)
 	w := v.W
 	ct := &sc.Message.Contribution
@@ -236,25 +316,41 @@ func (g *Gen) contribCase(what string, v *View, sc *altair.SignedContributionAnd
 }
 
 func (g *Gen) genContributions(sc *Scenario, heads []*Node) {
+	var at []HeadAt
+	for _, head := range heads {
+		at = append(at, HeadAt{head, head.Slot}, HeadAt{head, head.Slot + 1})
+	}
+	g.genContributionsAt(sc, at)
+}
+
+// genContributionsAt: as genSyncMessagesAt; across a rotating period boundary a contribution of a subcommittee of the
+// head block's own (previous) committee is added.
+func (g *Gen) genContributionsAt(sc *Scenario, at []HeadAt) {
 	w := sc.W
 	subSize := int(uint64(w.Spec.SYNC_COMMITTEE_SIZE) / common.SYNC_COMMITTEE_SUBNET_COUNT)
-	for hi, head := range heads {
-		for _, cur := range []common.Slot{head.Slot, head.Slot + 1} {
+	for ai, a := range at {
+		hi, head, cur := ai/2, a.Head, a.Cur
+		{
 			ep := w.Spec.SlotToEpoch(cur)
 			if ep < w.Spec.ALTAIR_FORK_EPOCH {
 				continue
 			}
 			v := NewView(w, head, 0)
 			v.NowMs = v.SlotStartMs(cur) + 4500
-			_, epc, err := w.Advance(head, cur)
+			st, _, err := w.Advance(head, cur)
 			must(err)
-			members := epc.CurrentSyncCommittee.Indices
+			members := w.SyncCommitteeOf(st) // of the state AT THE CONTRIBUTION'S SLOT
+			g.contribTag = ""
+			if old := w.SyncCommitteeOf(head.State); old != nil && fmt.Sprint(old) != fmt.Sprint(members) {
+				g.contribTag = "[head-in-previous-period]"
+				g.E.Extra["x_contrib_views_head_in_earlier_period_committee_rotated"] = extraInt(g.E.Extra["x_contrib_views_head_in_earlier_period_committee_rotated"]) + 1
+			}
 			selects := func(vi common.ValidatorIndex, sub uint64) bool {
 				sd := altair.SyncAggregatorSelectionData{Slot: cur, SubcommitteeIndex: view.Uint64View(sub)}
 				sel := w.C.Sign1(w.KeyOf(vi), common.ComputeSigningRoot(sd.HashTreeRoot(hFn), w.DomainAt(common.DOMAIN_SYNC_COMMITTEE_SELECTION_PROOF, ep)))
 				return altair.IsSyncCommitteeAggregator(w.Spec, sel)
 			}
-			mkBase := func(sub uint64, aggPos int, pattern int) ContribOpts {
+			mkBaseOf := func(members []common.ValidatorIndex, sub uint64, aggPos int, pattern int) ContribOpts {
 				subm := members[subSize*int(sub) : subSize*int(sub+1)]
 				bits := make([]bool, subSize)
 				var signers []KeyNum
@@ -266,6 +362,30 @@ func (g *Gen) genContributions(sc *Scenario, heads []*Node) {
 				}
 				return ContribOpts{Slot: cur, Root: head.Root, Sub: sub, Bits: bits, Signers: signers, Aggregator: subm[aggPos], AggKey: w.KeyOf(subm[aggPos]),
 					SelSlot: cur, SelSub: sub, SelDT: common.DOMAIN_SYNC_COMMITTEE_SELECTION_PROOF, OuterDT: common.DOMAIN_CONTRIBUTION_AND_PROOF, ContribDT: common.DOMAIN_SYNC_COMMITTEE}
+			}
+			mkBase := func(sub uint64, aggPos int, pattern int) ContribOpts { return mkBaseOf(members, sub, aggPos, pattern) }
+			// head block in an earlier period with another committee: a contribution of a subcommittee of THAT committee,
+			// by a selected aggregator (if possible one without a seat in the same subcommittee now)
+			if old := w.SyncCommitteeOf(head.State); old != nil && fmt.Sprint(old) != fmt.Sprint(members) {
+				for sub := uint64(0); sub < 4; sub++ {
+					oldm, newm := old[subSize*int(sub):subSize*int(sub+1)], members[subSize*int(sub):subSize*int(sub+1)]
+					if fmt.Sprint(oldm) == fmt.Sprint(newm) {
+						continue
+					}
+					pick := -1
+					for p := range oldm {
+						if selects(oldm[p], sub) && (pick < 0 || (memberOf(newm, oldm[pick]) && !memberOf(newm, oldm[p]))) {
+							pick = p
+						}
+					}
+					if pick >= 0 {
+						what := "subcommittee-of-previous-period[aggregator-kept-seat]"
+						if !memberOf(newm, oldm[pick]) {
+							what = "subcommittee-of-previous-period[aggregator-lost-seat]"
+						}
+						g.contribCase(what, v, w.MakeContribution(mkBaseOf(old, sub, pick, 0)))
+					}
+				}
 			}
 			var sample *ContribOpts
 			var nonSelecting *ContribOpts
@@ -404,4 +524,5 @@ func (g *Gen) genContributions(sc *Scenario, heads []*Node) {
 			}
 		}
 	}
+	g.contribTag = ""
 }
